@@ -24,7 +24,7 @@ def jstr(s):
     return "".join(out)
 
 
-CONSTS = ["0", "1", "-1", "127", "128", "255", "256", "8191", "8192", "-8192", "-8193", "32767", "32768",
+CONSTS = ["0", "1", "-1", "127", "128", "-127", "-128", "-129", "-32767", "-32768", "-32769", "255", "256", "8191", "8192", "-8192", "-8193", "32767", "32768",
           "65535", "65536", "2147483647", "-2147483648", "2147483648", "-2147483649", "0.5", "1e100", "-0.25",
           '""', '"s"', '"\\0\\xff\\n"', ":k", ":", "'sym", "'(1 2)", "'[1 2]", "{:a 1}", "'{:a (1 2) [3] 4}",
           "nil", "true", "false", '"' + "x" * 200 + '"', "math/pi", "math/inf", "math/nan",
@@ -146,7 +146,7 @@ def const_functions():
     out = []
     for c in CONSTS:
         out.append(("(fn konst [a] [a %s])" % c, ["[1]"]))
-    for c in CONSTS[:22]:
+    for c in CONSTS[:28]:
         out.append(("(fn kadd [a] (+ a %s))" % c, ["[1]", "[-1]", "[0.5]"]))
         out.append(("(fn kcmp [a] [(< a %s) (= a %s) (* %s a)])" % (c, c, c), ["[1]", "[-1]"]))
     return out
